@@ -279,5 +279,36 @@ func propC13(c *Ctx) {
 		}
 		c.runHistory("random-history", ops)
 	}
+	// churn: one (mnemonic, passphrase) pair, then more distinct pairs than any small cache holds, then the
+	// first pair again (and a few of the others): a bounded memo whose eviction leaves a stale index entry
+	// answers the repeat with another pair's seed.  The same for validations and encodings.
+	churn := 1
+	if !c.quick {
+		churn = 4
+	}
+	for k := 0; k < churn; k++ {
+		span := []int{140, 70, 300, 520}[k%4]
+		ops := []string{}
+		first := fmt.Sprintf("seed %s %s", hx([]byte(valid[2])), hx([]byte("first")))
+		ops = append(ops, first)
+		for i := 0; i < span; i++ {
+			ops = append(ops, fmt.Sprintf("seed %s %s", hx([]byte(fmt.Sprintf("m%d", i))), hx([]byte{byte('a' + i%26)})))
+		}
+		ops = append(ops, first, ops[1], ops[span/2], ops[span])
+		c.runHistory("churn:seeds", ops)
+		ops = ops[:0]
+		e0 := c.randBytes(16)
+		ops = append(ops, fmt.Sprintf("enc 2 %s", hx(e0)), fmt.Sprintf("chk 2 %s", hx([]byte(valid[2]))))
+		for i := 0; i < span; i++ {
+			e := c.randBytes(entSizes[i%5])
+			l := int64(langVals[i%10])
+			ops = append(ops, fmt.Sprintf("enc %d %s", l, hx(e)))
+			if i%3 == 0 {
+				ops = append(ops, fmt.Sprintf("chk %d %s", l, hx([]byte(strings.ReplaceAll(c.specSentence(l, e), "　", " ")))))
+			}
+		}
+		ops = append(ops, fmt.Sprintf("enc 2 %s", hx(e0)), fmt.Sprintf("chk 2 %s", hx([]byte(valid[2]))), ops[2], ops[3])
+		c.runHistory("churn:encodings-and-validations", ops)
+	}
 	r.sample("fresh process: chk Korean <valid ko> ; chk -1 <valid en> ; chk Korean <valid en> ; chk -1 <valid ko> ; enc -1 <16 bytes> -> each equals the fresh-state reference")
 }
